@@ -44,7 +44,9 @@ def setup_impl_env():
     os.environ.setdefault("NUMBA_CACHE_DIR", os.path.join(VERIF, ".cache", "numba"))
     os.environ.setdefault("PYTHONHASHSEED", "0")
     import logging
+    import warnings
     logging.disable(logging.CRITICAL)
+    warnings.simplefilter("ignore")      # numpy RuntimeWarnings of the library (0/0 in nansum paths etc.) are not check output
     cwd = os.path.join(BUILD, "cwd")
     os.makedirs(cwd, exist_ok=True)
     os.chdir(cwd)  # opfython writes opfython.log into the cwd
@@ -393,7 +395,8 @@ class Report:
         self.violations.append(dict(what=what, replay=replay_obj, key=key, found_input=found_input))
 
     def finish(self):
-        ev_dir = os.path.join(VERIF, "evidence")
+        # evaluations of seeded / benign patches (VERIF_EVIDENCE_DIR set) must not overwrite the evidence of /repo itself
+        ev_dir = os.environ.get("VERIF_EVIDENCE_DIR") or os.path.join(VERIF, "evidence")
         os.makedirs(ev_dir, exist_ok=True)
         n_obl = len(self.obligations)
         n_ok = sum(1 for _, ok, _ in self.obligations if ok)
